@@ -31,3 +31,17 @@ Theorem SRC_encrypted_file_decrypts_to_the_plaintext : forall c hbuf T P key see
   end.
 Proof. exact SRC_encrypted_file_decrypts_to_the_plaintext_proof. Qed.
 Print Assumptions SRC_encrypted_file_decrypts_to_the_plaintext.
+
+(* C12 for the source: verify and decrypt AS TRANSLATED, each on the thread machine under its own scheduler seed, return the same verdict
+   on every byte string and key (whenever both runs fit their step budgets); verification writes nothing; both leave the input as it was;
+   a rejected file is not decrypted, not even partly; an accepted one is decrypted to exactly what the model's dec computes. *)
+Theorem SRC_verdicts_coincide : forall c hbuf T F key rnd rnd',
+  (1 <= c)%nat -> (1 <= hbuf)%nat -> N.of_nat (16 * c) < 2 ^ 32 -> N.of_nat (64 * hbuf) < 2 ^ 32 -> (1 <= T <= 16)%nat ->
+  block16 key -> bytesb F = true -> N.of_nat (length F) < 2 ^ 36 ->
+  match src_verify_file c hbuf T F key rnd, src_decrypt_file c hbuf T F key rnd' with
+  | SOk (bv, ov, iv, _), SOk (bd, od, id, _) =>
+      bv = bd /\ ov = [] /\ iv = F /\ id = F /\ (bd = false -> od = []) /\ (bd = true -> dec c hbuf T F key = FileModel.Ok od)
+  | _, _ => True
+  end.
+Proof. exact SRC_verdicts_coincide_proof. Qed.
+Print Assumptions SRC_verdicts_coincide.
